@@ -287,8 +287,8 @@ package client
 //@   local cur int#1
 //@   local foundStart bool#1
 //@   local lb []byte#2
-//@   local i int#2
-//@   local c int#3
+//@   local i int#2,5
+//@   local c int#3,4
 //@   requires cw != nil && len(b) == cw.maxMessageLength && len(b) >= 3 && bufOK(&cw.readLeftover) && len(left(cw)) <= len(b) && refOf(b) != refOf(cw.readLeftover.buf)
 //@   modifies cw, cw.dev, b, cw.readLeftover.buf
 //@   realloc cw.readLeftover.buf
@@ -463,9 +463,9 @@ package client
 //@   local rc *client.RuleClient#1
 //@   local nodeID string#1
 //@   local points data.Points#1
-//@   local p data.Point#1
-//@   local i int#1
-//@   local c client.Condition#1
+//@   local p data.Point#1,2,3,4
+//@   local i int#1,2
+//@   local c client.Condition#1,2
 //@   local active bool#1
 //@   local weekdays []time.Weekday#1
 //@   local allActive bool#6
@@ -606,6 +606,7 @@ package client
 //@ model func listRuns(rc *RuleClient) int
 //@ func (*RuleClient).Run$2
 //@   props C13
+//@   local id string#1
 //@   local pts data.Points#1
 //@   havoc state(rc) at "rc.ruleRunActions(rc.config.Actions, id)"
 //@   assume list-run-counted: listRuns(rc) == before(listRuns(rc)) + 1 at "rc.ruleRunActions(rc.config.Actions, id)"
@@ -703,6 +704,7 @@ package client
 //@   local c []data.NodeEdge#1
 //@   local ncc []data.NodeEdgeChildren#1
 //@   local nec data.NodeEdgeChildren#1
+//@   local config T#1
 //@   modifies state(nc)
 //@   ensures treeKept(nc) && kidsKept(nc)
 //@   ensures [C07] failed-gives-no-state: res1 != nil ==> res0 == nil
@@ -781,9 +783,10 @@ package client
 //@   local m *client.Manager[T]#1
 //@   local id string#1
 //@   local nodes []data.NodeEdge#1
+//@   local err error#1,2
 //@   local found map[string]bool#1
 //@   local n data.NodeEdge#1
-//@   local key string#2
+//@   local key string#2,4
 //@   local cs *client.clientState[T]#1
 //@   local client *client.clientState[T]#2
 //@   requires m != nil && m.clientStates != nil && m.clientUpSub != nil && busAcyclic(m.nc)
@@ -848,8 +851,10 @@ package client
 //@ func (*Manager[T]).Run
 //@   props C07
 //@   local m *client.Manager[T]#1
+//@   local shutdownTimer *time.Timer#1
+//@   local scan func()#1
 //@   local c *client.clientState[T]#1
-//@   local key string#1
+//@   local key string#1,2
 //@   requires m != nil && m.clientStates != nil && m.clientUpSub != nil && busAcyclic(m.nc)
 //@   requires forall k string :: has(m.clientStates, k) ==> m.clientStates[k] != nil
 //@   modifies m, m.clientStates, m.clientUpSub, state(m.nc), state(client.Client), state(client.verifGhost)
@@ -901,7 +906,7 @@ package client
 //@   props C02
 //@   local up *client.SyncClient#1
 //@   local node data.NodeEdge#1
-//@   local err error#1
+//@   local err error#1,2
 //@   local childNodes []data.NodeEdge#1
 //@   option partial
 //@   requires up != nil && up.nc != up.ncRemote
@@ -920,7 +925,7 @@ package client
 //@   props C02
 //@   local up *client.SyncClient#1
 //@   local node data.NodeEdge#1
-//@   local err error#1
+//@   local err error#1,2
 //@   local childNodes []data.NodeEdge#1
 //@   option partial
 //@   requires up != nil && up.ncLocal != up.ncRemote
@@ -941,18 +946,20 @@ package client
 //@ func (*SyncClient).syncNode
 //@   props C02
 //@   local up *client.SyncClient#1
+//@   local parent string#1
+//@   local id string#2
 //@   local nodeLocal data.NodeEdge#1
 //@   local nodeUps []data.NodeEdge#2
 //@   local nodeUp data.NodeEdge#2
-//@   local p data.Point#2
+//@   local p data.Point#2,3,4,7
 //@   local upstreamProcessed map[int]bool#1
-//@   local found bool#4
-//@   local pUp data.Point#5
+//@   local found bool#4,6,8
+//@   local pUp data.Point#5,6,8,9
 //@   local children []data.NodeEdge#3
 //@   local upChildren []data.NodeEdge#4
 //@   local upChildProcessed map[int]bool#2
 //@   local child data.NodeEdge#4
-//@   local upChild data.NodeEdge#5
+//@   local upChild data.NodeEdge#5,6
 //@   option partial mathint=SyncCount
 //@   requires up != nil && up.nc != up.ncRemote && up.ncLocal != up.ncRemote
 //@   modifies &up.rootRemote, &up.subRemoteUp, &up.config.SyncCount, state(up.nc), state(client.verifGhost), state(client.verifGhost2)
@@ -1152,7 +1159,7 @@ package client
 //@   props C15
 //@   local nc *nats.Conn#1
 //@   local node *data.NodeEdgeChildren#1
-//@   local i int#1
+//@   local i int#1,2,3
 //@   local children []data.NodeEdge#1
 //@   requires node != nil && busAcyclic(nc)
 //@   modifies node, allof(data.Point), allof(data.NodeEdgeChildren), state(nc)
@@ -1239,6 +1246,7 @@ package client
 //@   local nc *nats.Conn#1
 //@   local parent string#1
 //@   local imp client.SiotExport#1
+//@   local importHelper func(data.NodeEdgeChildren) error#1
 //@   modifies state(nc), allof(data.NodeEdgeChildren), allof(data.Point)
 //@   assert [C15] top-node-gets-parent: len(imp.Nodes) >= 1 && imp.Nodes[0].Parent == parent at "importHelper(imp.Nodes[0])"
 //@   loop 1:
